@@ -14,6 +14,10 @@ the original presentation of an input against
    rotgen : a generic rotation + translation (coordinates re-rounded to 0.001 A),
    all    : perm + hren + rot90 together,
    hash   : the same file, martinize2 started as a subprocess under fixed PYTHONHASHSEED values,
+   structure `mc:<a>+<b>+...:<ids>`: a structure of SEVERAL CHAINS (tier-0 peptides placed side by side, chain ids as
+            given, e.g. A,B,C or q,7,Z), converted with -merge all / -merge <two ids> / -sep / -elastic -eunit all
+            -cys auto under >= 4 hash seeds that are CHOSEN so that the set of the chain ids is iterated in different
+            orders (measured in subprocesses, reported in the evidence under hash_seed_choice),
    permrev / permh : every residue listed backwards / hydrogens first, heavy atoms shuffled (further order patterns;
             `perm#2`, `perm#3` ... are further independent random permutations),
    hv2    : hydrogens named in the PDB v2 style (digit first: HB2 -> 2HB, HD11 -> 1HD1, H1 -> 1H),
@@ -80,10 +84,18 @@ chk.assumptions += [
     '2.25e-3 A; every other token as in an exact transformation',
     'an elastic bond present in one run only is admitted iff BOTH runs place its two beads within the margin of the same '
     'cut-off (margin = 1e-6 nm + resolution of the written coordinates)',
+    'multi-chain structures (mc:...): hash seeds are selected by the iteration order of the set of the chain-id strings '
+    'only; sets of other objects are exercised by whatever those seeds happen to do to them',
     'the order of chains / residues in the file is NOT varied: it is not presentation (C11.mapping_nonmonotone_changes_'
     'block_order); CR LF line ends and trailing blanks are treated as presentation',
 ]
 
+# the numerical libraries start one thread per core in every one of the ~100 runs of martinize2, which only makes the
+# runs slower on a busy machine (the arrays are small): one thread per run
+ONE_THREAD = {'OMP_NUM_THREADS': '1', 'OPENBLAS_NUM_THREADS': '1', 'MKL_NUM_THREADS': '1'}
+if 'numpy' not in sys.modules:
+    for _k, _v in ONE_THREAD.items():
+        os.environ.setdefault(_k, _v)
 M2PATH = os.path.join(REPO, 'bin', 'martinize2')
 TDATA = os.path.join(REPO, 'vermouth', 'tests', 'data', 'integration_tests')
 SCRATCH = tempfile.mkdtemp(prefix='c11_')
@@ -98,7 +110,7 @@ COORD_TOL_GENERIC = 0.00225
 MARGIN_EXACT = 1e-6 + 2e-4  # nm: 1e-6 + the resolution of the written CG coordinates (0.001 A per coordinate)
 MARGIN_GENERIC = 1e-6 + 5e-4
 NWORKERS = int(os.environ.get('VERIF_C11_WORKERS', '10'))
-NTHREADS = int(os.environ.get('VERIF_C11_SUBPROCS', '4'))
+NTHREADS = int(os.environ.get('VERIF_C11_SUBPROCS', '6'))
 # one run of martinize2 on these inputs takes 5-60 s (loaded machine); a run that takes longer than this is reported as
 # 'does not finish' (exit status `timeout`) - a presentation that sends a graph search into its exponential regime is a
 # difference too, and must end in a verdict rather than in the budget alarm of the whole check
@@ -503,6 +515,7 @@ def run_subproc(job):
     env = dict(os.environ)
     env['PYTHONHASHSEED'] = str(seed)
     env['PYTHONPATH'] = REPO
+    env.update(ONE_THREAD)
     p = subprocess.run([sys.executable, '-W', 'ignore', M2PATH] + argv, cwd=d, env=env, stdout=subprocess.PIPE,
                        stderr=subprocess.PIPE, text=True, timeout=3 * RUN_TIMEOUT)
     files = collect(d)
@@ -1021,6 +1034,13 @@ OPTSETS = {
     'm22p-posres': ['-ff', 'martini22p', '-noscfix', '-p', 'all', '-pf', '500', '-maxwarn', '100'],
     'm3-alt': ['-ff', 'martini3001', '-elastic', '-maxwarn', 'pdb-alternate'],
     'eln22': ['-ff', 'elnedyn22', '-noscfix', '-ss', 'SS', '-eu', '0.7', '-ef', '800.0'],
+    # multi-chain inputs (structures `mc:...`); CHAINS2 = the first two chain ids of the structure
+    'm3-merge-all': ['-ff', 'martini3001', '-merge', 'all'],
+    'm3-merge-2': ['-ff', 'martini3001', '-merge', 'CHAINS2'],
+    'm3-eunit-all': ['-ff', 'martini3001', '-elastic', '-eunit', 'all', '-cys', 'auto'],
+    'm3-sep': ['-ff', 'martini3001', '-sep'],
+    'm3-merge-all-eunit-chain': ['-ff', 'martini3001', '-merge', 'all', '-elastic', '-eunit', 'chain', '-resid', 'input'],
+    'm22-merge-2': ['-ff', 'martini22', '-noscfix', '-merge', 'CHAINS2', '-elastic', '-eunit', 'molecule'],
     'eln21-ter': ['-ff', 'elnedyn21', '-noscfix', '-ss', 'SS', '-nter', 'NH2-ter', '-cter', 'COOH-ter', '-ef', '500', '-maxwarn', '100'],
 }
 
@@ -1050,6 +1070,20 @@ QUICK = [
     ('dipro', 'm22-cys', ['all2', 'hter'], []),
     ('beta@alt', 'm3-alt', ['permrev', 'perm', 'rotfar'], []),
 ]
+# multi-chain inputs under hash seeds chosen so that the iteration order of the SET of chain ids differs between the runs
+# (`auto<n>`: n seeds, see pick_hash_seeds); the order of the chains in the file is never varied
+QUICK_MC = [
+    ('mc:dipro+trp+dipro:ABC', 'm3-merge-all', ['perm'], 'auto4'),
+    ('mc:trp+dipro+dipro:q7Z', 'm3-merge-2', [], 'auto4'),
+    ('mc:dipro+trp+dipro:ABC', 'm3-sep', [], 'auto4'),
+    ('mc:beta+dipro+beta:XkA', 'm3-eunit-all', [], 'auto4'),
+]
+THOROUGH_MC = QUICK_MC + [
+    ('mc:dipro+trp+dipro:ABC', 'm3-merge-2', ['rot90'], 'auto4'),
+    ('mc:trp+dipro+dipro:q7Z', 'm3-merge-all', [], 'auto4'),
+    ('mc:dipro+dipro:BA', 'm3-merge-all-eunit-chain', [], 'auto4'),
+]
+QUICK = QUICK + QUICK_MC
 
 
 def thorough_matrix():
@@ -1069,6 +1103,10 @@ def thorough_matrix():
             m.append((s, o, ['perm', 'hv2', 'rotfar', 'rotgen', 'all2'], [7] if o == 'm3-elastic-cys' else []))
         for o in ('m3-ss', 'm3-posres'):
             m.append((s, o, ['all'], []))
+    m += THOROUGH_MC
+    for st in ('mc:helix+dipro+trp:ABC', 'mc:dipro+beta+dipro+beta:0aZ9', 'mc:trp+trp:ba'):
+        for o in ('m3-merge-all', 'm3-merge-2', 'm3-eunit-all', 'm3-sep', 'm3-merge-all-eunit-chain', 'm22-merge-2'):
+            m.append((st, o, ['perm', 'all2'] if o == 'm3-merge-all' else [], 'auto6'))
     return m
 
 
@@ -1076,6 +1114,8 @@ def load_structure(s):
     if s.endswith('@alt'):
         recs, extra = load_structure(s[:-4])
         return add_alternates(recs, chk.rng('alt|' + s)), extra
+    if s.startswith('mc:'):
+        return multi_chain(s), []
     if s in T0:
         path, extra = os.path.join(TDATA, T0[s]), []
     elif s in T1:
@@ -1084,6 +1124,75 @@ def load_structure(s):
         path, extra = (s if os.path.isabs(s) else os.path.join(REPO, s)), []
     with open(path) as f:
         return parse_pdb(f.read()), extra
+
+
+def multi_chain(s):
+    """`mc:<t0>+<t0>+...:<ids>` - a structure of several chains: the i-th chain is the tier-0 peptide named, with chain
+    id ids[i], placed along x behind the previous chain with a gap of 4 A between the outermost atoms (close enough
+    for elastic bonds between chains, too far for any covalent bond); TER after every chain"""
+    _mc, parts, ids = s.split(':')
+    parts = parts.split('+')
+    if len(parts) != len(ids) or len(set(ids)) != len(ids):
+        raise ValueError('bad multi-chain structure ' + s)
+    out, edge = [], None
+    for part, cid in zip(parts, ids):
+        atoms = [dict(r) for r in load_structure(part)[0] if isinstance(r, dict)]
+        lo_, hi_ = min(a['xyz'][0] for a in atoms), max(a['xyz'][0] for a in atoms)
+        shift = 0 if edge is None else edge + 4000 - lo_
+        for a in atoms:
+            a['chain'] = cid
+            a['xyz'] = [a['xyz'][0] + shift, a['xyz'][1], a['xyz'][2]]
+        edge = hi_ + shift
+        out += atoms + ['TER']
+    return out + ['END']
+
+
+def chain_ids(recs):
+    out = []
+    for r in recs:
+        if isinstance(r, dict) and r['chain'] not in out:
+            out.append(r['chain'])
+    return out
+
+
+_SEED_ORDERS = {}
+
+
+def set_orders(ids, seeds):
+    """seed -> the order in which a CPython started with PYTHONHASHSEED=seed iterates over the set of the chain ids
+    (built by insertion in file order, as merge_chains / the elastic-network domains build theirs)"""
+    code = 'import sys\ns = set()\nfor c in sys.argv[1]:\n    s.update({c})\nprint("".join(s))'
+
+    def one(sd):
+        env = dict(os.environ, PYTHONHASHSEED=str(sd))
+        return sd, subprocess.run([sys.executable, '-S', '-c', code, ids], env=env, stdout=subprocess.PIPE,
+                                  text=True, timeout=60).stdout.strip()
+    todo = [sd for sd in seeds if (ids, sd) not in _SEED_ORDERS]
+    with concurrent.futures.ThreadPoolExecutor(max_workers=8) as tp:
+        for sd, order in tp.map(one, todo):
+            _SEED_ORDERS[(ids, sd)] = order
+    return {sd: _SEED_ORDERS[(ids, sd)] for sd in seeds}
+
+
+def pick_hash_seeds(ids, n):
+    """n hash seeds under which the set of chain ids `ids` is iterated in as many DIFFERENT orders as possible
+    (candidates: 48 seeds drawn from the stream of the check; the orders are measured in subprocesses)"""
+    cand = sorted(chk.rng('hashseeds|' + ids).sample(range(100000), 48))
+    orders = set_orders(ids, cand)
+    byorder = {}
+    for sd in cand:
+        if len(orders[sd]) == len(ids):
+            byorder.setdefault(orders[sd], []).append(sd)
+    # prefer the orders farthest from the file order first (reversed first), then round-robin over the orders
+    ranked = sorted(byorder, key=lambda o: (o != ids[::-1], o == ids, o))
+    chosen = []
+    while len(chosen) < n and any(byorder.values()):
+        for o in ranked:
+            if byorder[o] and len(chosen) < n:
+                chosen.append(byorder[o].pop(0))
+    chk.count('hash_seed_distinct_set_orders=%d' % len({orders[sd] for sd in chosen}))
+    chk.extra.setdefault('hash_seed_choice', {})[ids] = {str(sd): orders[sd] for sd in chosen}
+    return chosen
 
 
 def base_kind(kind):
@@ -1138,6 +1247,8 @@ def make_transform(kind, recs, rng):
 def argv_for(optset, recs, extra, rng_ss):
     argv = ['-f', 'in.pdb', '-x', 'cg.pdb', '-o', 'topol.top'] + list(OPTSETS[optset] if isinstance(optset, str) else optset)
     argv += extra
+    if 'CHAINS2' in argv:
+        argv[argv.index('CHAINS2')] = ','.join(chain_ids(recs)[:2])
     if 'SS' in argv:
         ignore = [argv[i + 1] for i, a in enumerate(argv[:-1]) if a == '-ignore']
         argv[argv.index('SS')] = ss_string(n_protein_residues(recs, ignore), rng_ss)
@@ -1161,7 +1272,7 @@ if ONLY:
     matrix = []
     for item in ONLY.split(';'):
         w = item.split('|')
-        matrix.append((w[0], w[1], [k for k in w[2].split(',') if k], [int(x) for x in w[3].split(',')] if len(w) > 3 else []))
+        matrix.append((w[0], w[1], [k for k in w[2].split(',') if k], (w[3] if w[3].startswith('auto') else [int(x) for x in w[3].split(',')]) if len(w) > 3 else []))
 for p in [] if ONLY else sorted(glob_ for glob_ in os.listdir(os.path.join(VERIF, 'corpus')) if glob_.startswith('c11_') and glob_.endswith('.json')):
     corpus += json.load(open(os.path.join(VERIF, 'corpus', p)))['cases']
 
@@ -1176,6 +1287,8 @@ def plan_group(struct, optname, optargs, kinds, seeds, tag=''):
     argv = argv_for(optargs, recs, extra, rng)
     base_text = write_pdb(recs)
     bkey = (struct, optname)
+    if isinstance(seeds, str):      # 'auto<n>'
+        seeds = pick_hash_seeds(''.join(chain_ids(recs)), int(seeds[4:]))
     if bkey not in bases:
         bases[bkey] = {'cid': 'base|%s|%s' % bkey, 'argv': argv, 'pdb': base_text, 'kind': 'base'}
     for kind in kinds:
